@@ -124,6 +124,76 @@ CLAIMS = {
         note=BASE_NOTE + 'queue.Queue is a FIFO list; well-formedness (duplicate-free, first sentence of a group before its '
              'others) is the proviso of the property itself.',
         design='DESIGN.md section 7, C17'),
+    'C02': dict(
+        technique='Coq proof of create -> to_bitarray -> from_bitarray = normalise for all in-range assignments of all 35 '
+                  'layouts (per-kind round trips for every width, induction over the field list, dispatch consistency over '
+                  'the regenerated tables), refutation witnesses for the open findings + differential check and oracle '
+                  'through encode_dict / create+encode_msg / decode',
+        text='C02_partial (forall v a, in_range v a -> c02_guard v a -> the message comes back with class of v and every '
+             'supplied field equal to normalise) is proved in Coq, with building blocks int_roundtrip (every width, signed and '
+             'unsigned), text/bytes/armor/fields round trips, kind_roundtrip for all 12 field kinds in exact arithmetic, '
+             'create- and decode-side dispatch consistency, C02_tolerance (truncating converters: < one step; positions: '
+             'half a step + half a unit of the sixth decimal), C02_position_code_nearest, C02_representable_unchanged. The FULL '
+             'statement C02_statement is kept visible and REFUTED (C02_refuted with one witness theorem per finding family: '
+             'inherited msg_type of types 2/3/11/13, short data of type 26, empty text, empty data, and the literal half-step '
+             'tolerance C02_refuted_half_step); these are the open known findings (no small safe repair: the existing tests '
+             'pin the behaviour) and are excluded from C02_partial by boolean guards. Sentence framing is C09, parsing C04. '
+             + TIE,
+        note=BASE_NOTE + 'Spec/RoundTripSpec.v (in_range, normalise, tolerance) is hand-written over Spec/Layout.v; binary64 '
+             'arithmetic through the standard model (generators keep supplied reals away from quantisation ties for the '
+             'model-vs-code comparison; the oracle applies the tolerance there).',
+        design='DESIGN.md section 7, C02'),
+    'C08': dict(
+        technique='Coq proof that decode -> encode -> decode is stable and that unnormalised payloads re-encode bit for bit, '
+                  'for all payloads ending on a field boundary (per-kind stability incl. vm_compute sweeps of the 256 '
+                  'rate-of-turn and enumeration codes), refutation witnesses for the open findings + differential check',
+        text='C08_partial (first clause under c08_guard, second clause under raw_unnormalised and no dropped padding) and '
+             'C08_field_stable are proved in Coq for every variant, every payload whose own bits select the variant, every '
+             'length ending on a field boundary (or a character/byte boundary inside a variable-length field) with zero text '
+             'padding. C08_statement stays visible and is REFUTED (C08_refuted_empty_text: a present text decoding to the '
+             'empty string re-encodes to nothing and comes back None; C08_refuted_padding: sub-character padding of text '
+             'fields whose width is not a multiple of six is not re-emitted) -- open known findings pinned by existing tests. '
+             + TIE,
+        note=BASE_NOTE + 'same Spec as C02; enumeration fall-backs are the regenerated _missing_ functions.',
+        design='DESIGN.md section 7, C08'),
+    'C12': dict(
+        technique='Coq refinement proof (tracker state machine vs an abstract per-MMSI map, induction over unbounded histories, '
+                  'both modes, every TTL) + differential check of the extracted model against AISTracker under a controlled '
+                  'clock + abstract-spec oracle',
+        text='C12_refinement / C12_refinement_exact (the track table abstracts to the specification map after every history), '
+             'C12_one_track_per_mmsi, C12_rejected_unchanged (an update raises iff it is older than its track or, in ordered '
+             'mode, older than some track; then the whole state is unchanged and nothing is emitted), C12_spec_most_recent, '
+             'C12_spec_never_reported are proved in Coq for all finite histories of update / pop_track / cleanup / clock '
+             'advance, polymorphic in the attribute value type. ' + TIE,
+        note=BASE_NOTE + 'time is an explicit argument of the model (the harness patches time.time and uses dyadic '
+             'timestamps); the AISTrack attribute list and the attributes each message class carries are read by reflection '
+             'and passed to the model as data.',
+        design='DESIGN.md section 7, C12'),
+    'C13': dict(
+        technique='Coq invariant proof over all histories (TTL exactness after every update/cleanup, cache lower bound, ordered '
+                  'mode sortedness) + differential check under a controlled clock',
+        text='C13_expiry_exact (after cleanup() or any accepted update() at time now, for every TTL and both modes, every '
+             'remaining track is younger than the TTL and every track removed by expiry had reached it), C13_no_ttl_no_expiry, '
+             'C13_invariants (unique keys, oldest_timestamp cache is a lower bound, ordered mode implies sorted), '
+             'C13_oracle_is_spec are proved in Coq by induction over unbounded histories. ' + TIE,
+        note=BASE_NOTE + 'explicit clock as in C12.',
+        design='DESIGN.md section 7, C13'),
+    'C14': dict(
+        technique='Coq proof over all reachable tracker states and all n (top-n predicate, newest-first order in unordered '
+                  'mode, using the sortedness invariant in ordered mode) + differential check',
+        text='C14_top_n (for every reachable state and n >= 0 the result has min(n, |tracks|) distinct tracks of the table and '
+             'nothing left out is newer; unordered mode: sorted newest first) and the oracle-equals-spec lemmas are proved in '
+             'Coq. ' + TIE,
+        note=BASE_NOTE + 'explicit clock as in C12.',
+        design='DESIGN.md section 7, C14'),
+    'C15': dict(
+        technique='Coq proof that the per-MMSI event trace of every history stays in (CREATED UPDATED* DELETED)* with alive = '
+                  'tracked (induction over histories) + differential check with callbacks on all three events',
+        text='C15_lifecycle (sp_alive m (all events) = Some (tracked m) after every history), C15_events_of_a_step (the exact '
+             'events of each step, per MMSI, in order), C15_rejected_emits_nothing are proved in Coq. ' + TIE,
+        note=BASE_NOTE + 'subscriber list modelled as "always append" (attach never deduplicates, exercised in the '
+             'correspondence only); expiry events of one step are compared as a multiset.',
+        design='DESIGN.md section 7, C15'),
 }
 
 PENDING = 'check not yet built in this snapshot (work in progress; see DESIGN.md section 12 for the status)'
